@@ -457,3 +457,6 @@ def run(ctx) -> None:
     from . import phases
     ctx.rules_run.append("Y7")
     phases.rule_Y7(ctx)
+    from .c19 import rule_I2
+    ctx.rules_run.append("I2")
+    rule_I2(ctx)          # every enum value of the schema keeps a member of its own
